@@ -303,9 +303,11 @@ theorem C16_strict_panic_witness :
    fragment `WFOpd` (`C16_print_parse_nested`): parenthesised lists nested to any depth whose operands
    are words, quoted phrases of any characters (printed with escapes) with slop / prefix star, field
    prefixes, bracketed and elastic ranges, sets, `*`, `name:*`, `NOT x`.
-   (5) boosts on words, phrases, parenthesised lists, bracketed ranges and sets (`C16_print_parse_boosted`).
-   Still open in the ∀ form: boosts after elastic ranges, `*`, `name:*` and `NOT x`, escapes inside unquoted words, single-quoted phrases, regex leaves, negative
-   numbers, `*` as a range bound, blanks inside elastic ranges, unicode blanks as separators. -/
+   (5) boosts on words, phrases, parenthesised lists, bracketed ranges and sets, and `name:( … )`
+   groups (`C16_print_parse_boosted`). (6) compositions with the fold-layer theorems: from the text
+   of an AND/OR chain resp. a marker list to its meaning (`C16_text_precedence`, `C16_text_markers`).
+   Still open in the ∀ form: boosts after elastic ranges, `*`, `name:*` and `NOT x`, escapes inside
+   unquoted words, single-quoted phrases, regex leaves, negative numbers, `*` as a range bound, blanks inside elastic ranges, unicode blanks as separators. -/
 /-- **print/parse at leaf level, for all words**: the strict parser (with or without the guard)
     reads a word of ASCII letters and digits that is not `OR`/`AND`/`NOT`/`IN` as the unfielded,
     unquoted literal with exactly that text -/
